@@ -7,6 +7,7 @@
 mod ir;
 mod maccmd;
 mod maccmd_sets;
+mod maccmd_creators;
 mod phyio;
 mod statics;
 mod tables;
